@@ -751,7 +751,7 @@ func main() {
 	run.Res.Extra["watchdog_s"] = watchdog.Seconds()
 
 	// random fragment graphs
-	n := run.N(1800, 60000)
+	n := run.N(2500, 60000)
 	for i := 0; i < n && !run.TooManyViolations() && !poisoned; i++ {
 		rg := hx.Fork(run.Seed, i)
 		c := randomCase(rg)
